@@ -43,13 +43,33 @@ TRIGGERS = {
  "T-C19": ("C19", "ValidatorInfo.stakers becomes a HashSet: its serialisation order in storage depends on a per-set random seed, so two identical runs store different bytes (needs >= 2 delegators on one validator and a comparison of raw storage)"),
  "T-C20": ("C20", "ContractWrapper::with_reply_empty rebuilds the wrapper with checksum: None: a checksum set before with_reply_empty is lost"),
  "S-C20": ("C20", "AppBuilder::with_ibc rebuilds the builder with the default block: needs with_block(..) followed later by with_ibc(..)"),
+ "U-C01": ("C01", "StorageTransaction::set drops a write whose value equals what the BACKING storage holds (not the cache's own view): key k=v before the transaction, changed inside it (or in an outer layer) and written back to v in a nested layer -> the write-back is lost, so a transaction that returned Ok did not persist all its effects"),
+ "U-C02": ("C02", "customize_msg (lifting of responses of contracts written against Empty: new_with_empty / with_*_empty) rebuilds sub-messages with the SubMsg constructors and maps reply_on Success to Always: a failing sub-message sent with reply_on Success by a lifted contract is absorbed by its reply instead of propagating"),
+ "U-C03": ("C03", "execute_submsg builds the Reply of a FAILED sub-message with an empty payload: needs reply_on Error/Always, a failing sub-message and a non-empty payload"),
+ "U-C04": ("C04", "build_app_response drops custom events that carry no attributes: a contract event without attributes must still surface as wasm-<type> with the contract address"),
+ "U-C05": ("C05", "execute_submsg runs a sub-message in its own cache only for reply_on Always|Success: with reply_on Error a failing Execute/Instantiate whose failure is absorbed by the reply keeps the attached funds on the callee (same site as T-C02, seen from the funds side)"),
+ "U-C06": ("C06", "range_bounds treats an EMPTY end bound like a missing one on the cache's own pending entries: range(_, Some(b\"\")) returns the pending sets instead of nothing"),
+ "U-C07": ("C07", "range_with_prefix skips raw records not LONGER than the prefix (off by one): the entry under the empty key of a view (raw key == encoded prefix) is never returned by range, while get/set/remove still address it"),
+ "U-C08": ("C08", "MergeOverlay: a locally overwritten (Set) key no longer hides the base entry: iteration inside a transaction yields the key twice (new value then old value)"),
+ "U-C09": ("C09", "BankKeeper::mint fast path for accounts without balance stores the coins un-normalised: a first credit naming a denomination twice (or with zero amounts) leaves unmerged / zero entries, so all-balances and single-denomination queries disagree"),
+ "U-C10": ("C10", "execute_submsg creates the cache layer only when the result is handled in reply (see NOTES.md): writes of a failed sub-message that is absorbed stay visible to later queries of the same transaction"),
+ "U-C11": ("C11", "register_contract treats an EMPTY salt as no salt: instantiate2 with salt b\"\" succeeds at a history-dependent address and can be repeated"),
+ "U-C12": ("C12", "update_admin returns Ok early when the requested admin equals the stored one, before the sender check: UpdateAdmin naming the CURRENT admin succeeds for any sender (former admin, stranger, contract)"),
+ "U-C13": ("C13", "App::wasm_sudo no longer wraps the call in the outer cache: a sudo response that is rejected as malformed keeps the writes made before it (a sudo returning Err is still rolled back)"),
+ "U-C14": ("C14", "process_queue: the zero-amount test moved into the match guard, so a matured entry slashed to zero is never popped and blocks every later payout: needs an unbonding slashed to 0 (100 % slash, or 1 token at 50 %) and a later undelegation"),
+ "U-C15": ("C15", "WithdrawDelegatorReward reads the staking parameters from the root storage and falls back to the defaults: with a bonded denomination other than TOKEN the reward is minted in TOKEN"),
+ "U-C16": ("C16", "slash takes the wipe-out branch when floor(total * (1-p)) is zero instead of when p = 1: a partial slash leaving less than one token deletes the stake entries and the rewards accrued on them"),
+ "U-C17": ("C17", "customize_msg rewrites a lifted contract's CosmosMsg::Stargate into CosmosMsg::Any: the stargate module's execute_any is called instead of execute_stargate (needs features stargate + cosmwasm_2_0 and a handler that tells the two apart)"),
+ "U-C18": ("C18", "MockApiBech::addr_canonicalize lower-cases its input before decoding: mixed-case spellings (and k -> U+212A) are accepted by canonicalize"),
+ "U-C19": ("C19", "StakeKeeper::get_staking_info caches the parameters in a process-wide static: the first App of the process to read them fixes bonded denomination, unbonding time and rate for every later App (needs two Apps with different staking parameters in one process)"),
+ "U-C20": ("C20", "AppBuilder::new_custom starts from a literal block whose time lacks the sub-second part of mock_env().block: apps from new_custom / custom_app without with_block start 879305533 ns earlier than App::default()"),
 }
 
 def main(logs):
     res = {}
     for lg in logs:
         for line in open(lg):
-            m = re.match(r"^([ST]-C\d+) (\S+)(?: (.*))?$", line.strip())
+            m = re.match(r"^([STU]-C\d+) (\S+)(?: (.*))?$", line.strip())
             if not m: continue
             sid, key, rest = m.group(1), m.group(2), m.group(3) or ""
             r = res.setdefault(sid, {"checks": {}, "verified": {}})
@@ -84,7 +104,7 @@ def main(logs):
         json.dump(meta, open(os.path.join(d, "meta.json"), "w"), indent=1)
         rows.append((sid, prop, "yes" if prop in detected else ("NO" if r["checks"] else "not run"), ", ".join(detected), trig))
     with open(os.path.join(ROOT, "seeded", "README.md"), "w") as f:
-        f.write("# Seeded property-breaking changes (from sub-agents)\n\nS-* = round 1, T-* = round 2 (the sub-agent was told the round-1 change as 'already taken'). Each directory holds `patch.diff` (apply with `git -C /repo apply`), the demonstration test `seed_demo.rs`, the sub-agent's `NOTES.md` and `meta.json`.\nAll were re-verified with `tools/selftest.sh` on a scratch copy of /repo: the baseline suite passes with the change, the demonstration passes without and fails with it.\n\n| seed | breaks | own check detects | all quick checks that fail | needs |\n|---|---|---|---|---|\n")
+        f.write("# Seeded property-breaking changes (from sub-agents)\n\nS-* = round 1, T-* = round 2, U-* = round 3 (from round 2 on the sub-agent was told the earlier changes as 'already taken'). Each directory holds `patch.diff` (apply with `git -C /repo apply`), the demonstration test `seed_demo.rs`, the sub-agent's `NOTES.md` and `meta.json`.\nAll were re-verified with `tools/selftest.sh` on a scratch copy of /repo: the baseline suite passes with the change, the demonstration passes without and fails with it.\n\n| seed | breaks | own check detects | all quick checks that fail | needs |\n|---|---|---|---|---|\n")
         for row in rows:
             f.write("| %s | %s | %s | %s | %s |\n" % row)
     print("\n".join("%s %s own=%s all=[%s]" % r[:4] for r in rows))
